@@ -183,9 +183,9 @@ func (server *SugarDB) handleCommand(ctx context.Context, message []byte, conn *
 		}
 
 		if internal.IsWriteCommand(command, subCommand) && !replay {
-			server.connInfo.mut.RLock()
-			server.aofEngine.LogCommand(server.connInfo.tcpClients[conn].Database, message)
-			server.connInfo.mut.RUnlock()
+			// Log the command under the database the request was executed against
+			// (for embedded callers there is no TCP client entry to look up).
+			server.aofEngine.LogCommand(ctx.Value("Database").(int), message)
 		}
 
 		server.stateMutationInProgress.Store(false)
